@@ -201,6 +201,10 @@ func driveRetain(c *driverCtx, run int) {
 			p := pick()
 			v.FieldByName("P").Set(reflect.ValueOf(&p))
 			v.FieldByName("L").Set(reflect.ValueOf([]string{pick(), pick()}))
+			// nothing with strings of its own after the list: the record's last string comes from the pool too
+			for _, f := range []string{"LP", "M", "In", "T", "PT"} {
+				v.FieldByName(f).Set(reflect.Zero(v.FieldByName(f).Type()))
+			}
 		}
 	}
 	large := run%6 == 5
@@ -283,6 +287,55 @@ func driveRetain(c *driverCtx, run int) {
 	}
 	c.rec.NewCase()
 	c.rec.Emit(key, map[string]any{"op": "retain", "inputs": inputs, "checkpoints": checkpoints, "err": errString(rerr), "panic": pan, "delivered": len(ks)})
+}
+
+// driveCloseInCallback: the usual consumer: look at the record, close its bank, return. Banks come back two records
+// later. The records are made so that a later record starts with exactly the string an earlier one ended with, the
+// earlier one having stored it at a small offset of its string store: whatever a recycled bank remembers about its
+// previous life shows up as a changed string.
+func driveCloseInCallback(c *driverCtx, run int) {
+	st := staticOf[GCInnerLite]("GCInnerLite")
+	x := fmt.Sprintf("a long string that several records share, number %d", run)
+	y := strings.Repeat("y", 40+run%7)
+	z := strings.Repeat("z", 33)
+	var vals []reflect.Value
+	for i := 0; i < 12; i++ {
+		v := reflect.New(st.typ).Elem()
+		g := GCInnerLite{}
+		if i%3 == 0 {
+			sh := "ab"
+			g = GCInnerLite{S: "", P: &sh, L: []string{"c", x}} // ends with x, stored early
+		} else {
+			yy := y
+			g = GCInnerLite{S: x, P: &yy, L: []string{z, fmt.Sprint("tail", i), x}} // starts with x, then plenty more
+		}
+		v.Set(reflect.ValueOf(g))
+		vals = append(vals, v)
+	}
+	codec := codecs3[run%3]
+	cfg := rtConfig{Codec: codec, Block: []int{0, 1 << 20, 100}[run%3], Flush: map[int]bool{}}
+	w := &recWriter{}
+	if err, p := safeMake(st.mk, w, cfg, vals); err != nil || p != "" {
+		return
+	}
+	inputs := make([]any, len(vals))
+	for i, v := range vals {
+		inputs[i] = projectValue(v)
+	}
+	var checkpoints []any
+	n := 0
+	var rerr error
+	pan := catch(func() {
+		rerr = avro.ReadFile(bytes.NewReader(w.out), reflect.New(st.typ).Elem().Interface(), func(val unsafe.Pointer, rb *avro.ResourceBank) error {
+			n++
+			v := reflect.NewAt(st.typ, val).Elem()
+			checkpoints = append(checkpoints, map[string]any{"after": fmt.Sprintf("record %d, in the callback", n), "open": []int{n}, "values": []any{safeProject(v)}, "banks": []int{bankID(rb)}, "zn": []string{zoneNames(v)}})
+			rb.Close()
+			return nil
+		})
+	})
+	c.rec.NewCase()
+	c.rec.Emit(fmt.Sprintf("C10|close-in-callback|%s|B%d", codec, cfg.Block), map[string]any{"op": "retain", "inputs": inputs, "checkpoints": checkpoints, "err": errString(rerr), "panic": pan, "delivered": n})
 }
 
 // driveRetainAcrossReads: a read that the callback aborts (after closing the bank it was given, the usual
@@ -445,6 +498,9 @@ func driveC10(c *driverCtx) error {
 	}
 	for run := 0; run < c.pick(12, 600); run++ {
 		driveRetainAcrossReads(c, run)
+	}
+	for run := 0; run < c.pick(9, 300); run++ {
+		driveCloseInCallback(c, run)
 	}
 	return nil
 }
